@@ -373,7 +373,7 @@ def check_transformed(ctx: Ctx, fi: FuncInfo) -> None:
     # the table that is filled is the one that is returned
     import re as _re
 
-    mt = _re.match(r"(\w+)\[", act)
+    mt = _re.match(r"(\w+)[\[.]", act)
     tbl = mt.group(1) if mt else None
     last = fi.body[-1]
     inits = [st for st in fi.body if isinstance(st, (ast.Assign, ast.AnnAssign)) and st.value is not None and unparse(st.targets[0] if isinstance(st, ast.Assign) else st.target) == tbl]
